@@ -17,28 +17,28 @@ TRUST2 = ('trusted: the AST->CFG translator (validated each run by replaying sol
 E1, E2, E3 = 'E1-crosshair', 'E2-bmc', 'E3-smt-kernel'
 CHECKS = {
     'C01': (E1, 'CrossHair symbolic execution of whole pipelines of the real core.py against an eager list reference; one condition per program structure, path tree exhausted; replay on real code',
-            BOUNDED + 'Programs: every op of a 69-op alphabet at depth 1 (n<=3), op-class pairs at depth 2 (quick) / all pairs + sampled depth 3 (thorough); values, offsets, thresholds, slice bounds, index entries and shuffle permutations symbolic.',
+            BOUNDED + 'Programs: every op of a 69-op alphabet at depth 1 (n<=3), op-class pairs at depth 2 (quick) / all pairs + sampled depth 3 (thorough); values, offsets, thresholds, slice bounds, index entries and shuffle permutations symbolic. Family opaque: non-numeric examples (None, 0, False, empty string, (), a key-like string) at one or two solver-chosen positions through the value-agnostic combinators, depth<=2.',
             TRUST1 + 'serial contract of lazy_parallel_map/single_thread_prefetch (discharged by C04-C07); bounds n<=3/4, depth<=2/3', 'DESIGN.md 3, 4 C01'),
     'C02': (E1 + '+' + E3, 'CrossHair per-stage index contracts on abstract datasets of symbolic unbounded length (L1) + whole pipelines with a symbolic index (L2); cvc5 QF_BVFP lemma for the float formula of BatchDataset.__len__',
             BOUNDED + 'L1 covers lengths and indices without bound for concatenate/map/batch(non-negative index); L2 every op / op-class pairs with n<=3; E3: L<2^16 (quick) / 2^31 (thorough), b<=4/8.',
             TRUST1 + 'cvc5 1.0.3 for the FP lemma (translator validated against the real function on L in 0..40 each run)', 'DESIGN.md 4 C02'),
     'C03': (E1, 'CrossHair symbolic execution of keys()/items()/key lookup of dict-backed pipelines against the reference keys; removed and absent keys must raise',
-            BOUNDED + 'dict-backed sources n<=3, every op / op-class pairs.', TRUST1 + 'known finding KF-C03-slice-lookup-outside-selection is carved out', 'DESIGN.md 4 C03'),
-    'C04': (E2 + '+' + E1, 'z3 BMC of the translated parallel_utils functions: queries order, complete (+threshold, reach) for single_thread_prefetch and lazy_parallel_map x 5 back ends; CrossHair for core.py forwarding',
+            BOUNDED + 'dict-backed sources n<=3, every op / op-class pairs; items() of filtered / exception-filtered / prefetched datasets (catch_filter_exception inside a prefetch included) with a symbolic failure threshold.', TRUST1 + 'known finding KF-C03-slice-lookup-outside-selection is carved out', 'DESIGN.md 4 C03'),
+    'C04': (E2 + '+' + E1, 'z3 BMC of the translated parallel_utils functions: queries order, complete (+threshold, reach) for single_thread_prefetch and lazy_parallel_map x 5 back ends; for the order of single_thread_prefetch additionally one-step induction over the same generated transition system with a Houdini-pruned candidate invariant (every query z3 over bit-vectors: every n<=100, schedules of any length); CrossHair for core.py forwarding',
             BMC + 'Bounds: n<=2 items, buffer<=2, workers<=2 (quick) / n<=3 (single thread also n<=4), buffer<=3, workers<=3 for the thread pool (thorough).', TRUST2 + 'E1 part: serial contract stub records forwarded arguments', 'DESIGN.md 2.2, 4 C04'),
     'C05': (E2, 'z3 BMC: deadlock, after-return (no thread/task alive or starting once control is back), cancelled (no PENDING task at executor exit after an early stop), threshold',
             BMC + 'Every stop point k in 1..n, every failure point, buffer from 1.', TRUST2 + 'process pools: uncontrolled replay with marker files', 'DESIGN.md 2.2, 4 C05'),
     'C06': (E2 + '+' + E1, 'z3 BMC: error-position for Exception and BaseException-only failures of the source and of the mapped function; CrossHair for catch_filter_exception with a symbolic failure plan',
-            BMC + 'One failing position per run in E2; E1: arbitrary subsets of failing positions, n<=3/4.', TRUST2 + 'known finding KF-C06-parmap-source-error-drops-buffered: the strong query is its witness, a weaker query must hold', 'DESIGN.md 2.2, 4 C06'),
+            BMC + 'One failing position per run in E2; E1: arbitrary subsets of failing positions, n<=3/4, also above a per-epoch reshuffle over 2/3 epochs of one prefetching object.', TRUST2 + 'known finding KF-C06-parmap-source-error-drops-buffered: the strong query is its witness, a weaker query must hold', 'DESIGN.md 2.2, 4 C06'),
     'C07': (E2 + '+' + E1, 'z3 BMC with pulled/started/delivered counters in the encoded state: pulled-delivered<=B+2 and started-delivered<=B in every reachable state; for single_thread_prefetch additionally one-step induction over the same generated transition system (potential functions found by z3 over linear integer arithmetic, inductiveness decided by z3 over bit-vectors: every n<=100, schedules of any length); CrossHair for the constructor assertions',
             BMC + 'Complete executions are checked for n<=2/3, execution prefixes for n<=6/8; for single_thread_prefetch an inductive invariant (verified by three unsat queries on the encoded transition relation, regenerated each run) lifts the pulled bound to every n<=100 and schedules of any length when it closes - if it does not close the claim stays the bounded one (reported as inconclusive). No induction for lazy_parallel_map.', TRUST2, 'DESIGN.md 2.2, 4 C07'),
     'C08': (E1, 'CrossHair: log of user-function applications of the real lazy pipeline equals the log of the same program written with plain generators, after construction, after k results and after point-wise access',
-            BOUNDED + '16 program templates, n<=3/4, every prefix length k.', TRUST1 + 'serial contract for prefetch', 'DESIGN.md 4 C08'),
+            BOUNDED + '16 program templates, n<=3/4, every prefix length k; construction clause: every two-stage composition of 11 x 28 lazy stages, accepted or refused by the library (structural enumeration, no arithmetic).', TRUST1 + 'serial contract for prefetch', 'DESIGN.md 4 C08'),
     'C09': (E1, 'CrossHair as exhaustive driver over selector histories (access path, target, mutation); each path runs the real pickle/deepcopy/numpy/diskcache code untraced and compares every access path with the pristine snapshot',
-            'Exhaustive within the selector family: the solver enumerates every history of 1 step and (sampled in quick, all in thorough) 2 steps over 9 storage kinds x 2 example shapes (dict, tuple around a dict) x 7 access paths x 9 mutations; no arithmetic is involved (weak fit of the technique, stated in DESIGN.md).',
+            'Exhaustive within the selector family: the solver enumerates every history of 1 step and (sampled in quick, all in thorough) 2 steps over 10 storage kinds x 2 example shapes (dict, tuple around a dict; plus examples that cannot be serialised for 7 kinds) x 10 access paths x 9 mutations; no arithmetic is involved (weak fit of the technique, stated in DESIGN.md).',
             'trusted: CrossHair path enumeration, the harness; bounds: 2 examples, histories <= 2 steps', 'DESIGN.md 4 C09'),
     'C10': (E1, 'CrossHair: real CacheDataset with fresh solver-chosen upstream values per call, solver-chosen memory readings and threshold; histories of accesses are structural',
-            BOUNDED + 'Histories of length <=3 over 13 access kinds, n=2/3.', TRUST1 + 'psutil stub as input carrier', 'DESIGN.md 4 C10'),
+            BOUNDED + 'Histories of length <=3 over 15 access kinds, n=2/3; one solver-chosen upstream call (among the first six) returns None.', TRUST1 + 'psutil stub as input carrier', 'DESIGN.md 4 C10'),
     'C11': (E1, 'CrossHair as exhaustive driver over lifecycle selectors (accessed subset, reuse/clear flags, release order, kill point) on the real diskcache package',
             'Exhaustive within the selector family; kill points are "after the k-th store" of a child that ends with os._exit. A kill inside a store is not applicable (SQLite atomicity is not encoded).',
             'trusted: diskcache/SQLite, CrossHair path enumeration; n=3', 'DESIGN.md 4 C11'),
@@ -47,7 +47,7 @@ CHECKS = {
     'C13': (E1, 'CrossHair: twin builds with equally seeded carriers and adversarial global generator must agree per epoch (plain, copy, prefetch); frozen copies fixed; copy() compared attribute by attribute',
             BOUNDED + '7 random pipelines + 5 with a reshuffle below prefetch/catch/batch/filter, n<=3, 2/3 epochs; 22 stage kinds for copy().', TRUST1, 'DESIGN.md 4 C13'),
     'C14': (E1, 'CrossHair: symbolic failure plan per position (ok / listed / subclass / foreign) below catch(); lazy filter vs eager filter vs FilterException+catch',
-            BOUNDED + 'n<=3/4, 4 raising-stage layouts, 4 caught-set forms, value and items iteration.', TRUST1, 'DESIGN.md 4 C14'),
+            BOUNDED + 'n<=3/4, 4 raising-stage layouts, 4 caught-set forms, value and items iteration; failures from the families of 9 builtin exception types below concatenation / tiling / index list / intersperse; catch() above a per-epoch reshuffle over 2/3 epochs against an equally seeded twin.', TRUST1, 'DESIGN.md 4 C14'),
     'C15': (E1, 'CrossHair: split/shard with symbolic (unbounded below) section count and shard index; partition, order, sizes, shard==split[i], invalid counts rejected',
             BOUNDED + 'n<=6/10; k<=n+3.', TRUST1 + 'array_split contract shim validated against numpy (n<=12,k<=13) each run', 'DESIGN.md 4 C15'),
     'C16': (E1, 'CrossHair: both sides of each law built from real code and observed identically (iteration twice, len, keys, items, symbolic index)',
